@@ -108,3 +108,13 @@ def sign_multiplier(data, dim):
     k = data._ext[keep]
     d = tm.sym(fresh("sign"), k, k, ("diag", "real", "herm", "unit", "inv"))
     return SymDA(d, (keep,), {keep: k}, {keep: data._cid.get(keep)}, False, data.lazy)
+
+
+def argsort_dask(data, dim):
+    """contract of xeofs.utils.xarray_utils.argsort_dask: a lazy-safe argsort along `dim`
+    (x[argsort(x)] ascending); the result is only usable as a positional indexer"""
+    ctx().events.append(("call", {"callee": "argsort_dask", "dim": dim}))
+    if dim not in data.dims or len(data.dims) != 1:
+        raise Unsupported("argsort_dask on this argument")
+    r = data._new(data.term, mark=Argsort(f"argsort({data.term!r})", data.term))
+    return r
